@@ -49,30 +49,46 @@ def _is_literal(e) -> bool:
     return isinstance(e, ast.Tuple) and not e.elts
 
 
-def call_usage(tree: ast.AST) -> Tuple[Set[Tuple[str, str]], Dict[str, int]]:
-    """({(callee simple name, keyword)}, {callee simple name: max number of positional arguments}) over one module"""
-    kws, npos = set(), {}
-    for c in ast.walk(tree):
-        if not isinstance(c, ast.Call):
-            continue
-        f = c.func
-        nm = f.id if isinstance(f, ast.Name) else (f.attr if isinstance(f, ast.Attribute) else None)
-        if nm is None:
-            continue
-        for k in c.keywords:
-            if k.arg:
-                kws.add((nm, k.arg))
-            else:
-                kws.add((nm, "**"))
-        n = len(c.args) + (100 if any(isinstance(a, ast.Starred) for a in c.args) else 0)
-        npos[nm] = max(npos.get(nm, 0), n)
-    return kws, npos
+def call_usage(tree: ast.AST):
+    """({(callee simple name, keyword)}, {callee simple name: max number of positional arguments},
+        {(callee simple name, keyword): [(enclosing function simple name or None, ("lit", text) | ("name", id) | ("other", None))]}) over one module"""
+    kws, npos, vals = set(), {}, {}
+
+    def visit(node, encl):
+        for ch in ast.iter_child_nodes(node):
+            e2 = encl
+            if isinstance(ch, (ast.FunctionDef, ast.AsyncFunctionDef)):
+                e2 = ch.name
+            elif isinstance(ch, ast.ClassDef):
+                e2 = encl
+            if isinstance(ch, ast.Call):
+                f = ch.func
+                nm = f.id if isinstance(f, ast.Name) else (f.attr if isinstance(f, ast.Attribute) else None)
+                if nm is not None:
+                    for k in ch.keywords:
+                        if k.arg:
+                            kws.add((nm, k.arg))
+                            v = k.value
+                            if _is_literal(v):
+                                d = ("lit", ast.unparse(v))
+                            elif isinstance(v, ast.Name):
+                                d = ("name", v.id)
+                            else:
+                                d = ("other", None)
+                            vals.setdefault((nm, k.arg), []).append((encl, d))
+                        else:
+                            kws.add((nm, "**"))
+                    n = len(ch.args) + (100 if any(isinstance(a, ast.Starred) for a in ch.args) else 0)
+                    npos[nm] = max(npos.get(nm, 0), n)
+            visit(ch, e2)
+    visit(tree, None)
+    return kws, npos, vals
 
 
 def new_params(tree: ast.AST, rel: str):
-    """{(function simple name or class name for __init__, parameter)} of parameters that are not in the inventory and have a literal default"""
+    """{(function simple name or class name for __init__, parameter): default text} of parameters that are not in the inventory and have a default"""
     base = baseline_params().get(rel)
-    out = set()
+    out = {}
     if base is None:
         return out
 
@@ -84,12 +100,13 @@ def new_params(tree: ast.AST, rel: str):
                 if old is not None:
                     a = st.args
                     pos = a.posonlyargs + a.args
-                    dn = {x.arg for x in pos[len(pos) - len(a.defaults):]} | {x.arg for x, d in zip(a.kwonlyargs, a.kw_defaults) if d is not None}
+                    dn = dict(zip([x.arg for x in pos[len(pos) - len(a.defaults):]], a.defaults))
+                    dn.update({x.arg: d for x, d in zip(a.kwonlyargs, a.kw_defaults) if d is not None})
                     for x in pos + a.kwonlyargs:
                         if x.arg not in old and x.arg in dn:
-                            out.add((st.name, x.arg))
+                            out[(st.name, x.arg)] = ast.unparse(dn[x.arg])
                             if cls and st.name == "__init__":
-                                out.add((cls, x.arg))
+                                out[(cls, x.arg)] = ast.unparse(dn[x.arg])
                 visit(st.body, q + ".<locals>.", None)
             elif isinstance(st, ast.ClassDef):
                 visit(st.body, prefix + st.name + ".", st.name)
@@ -102,7 +119,31 @@ def new_params(tree: ast.AST, rel: str):
     return out
 
 
-def specialise(tree: ast.Module, rel: str, used_kws: Set[Tuple[str, str]], max_pos: Dict[str, int]):
+def options_safe_to_fold(newp: Dict[Tuple[str, str], str], used_kws, kw_values) -> Set[Tuple[str, str]]:
+    """the new options whose every keyword use in the package passes the default itself, or forwards a like-defaulted new option of the calling function
+    that is itself safe (fixpoint): threading an opt-in option through the layers does not make it 'used'"""
+    ok = {k for k, d in newp.items() if d is not None}
+    changed = True
+    while changed:
+        changed = False
+        for (f, p_) in list(ok):
+            bad = (f, "**") in used_kws
+            for encl, (kind, val) in kw_values.get((f, p_), []):
+                if kind == "lit":
+                    if val != newp[(f, p_)]:
+                        bad = True
+                elif kind == "name":
+                    if (encl, val) not in ok or newp.get((encl, val)) != newp[(f, p_)]:
+                        bad = True
+                else:
+                    bad = True
+            if bad:
+                ok.discard((f, p_))
+                changed = True
+    return ok
+
+
+def specialise(tree: ast.Module, rel: str, used_kws, max_pos: Dict[str, int], spec_ok=None):
     """returns (tree, [(qualified function, parameter, default text)])"""
     base = baseline_params().get(rel)
     if base is None:
@@ -148,7 +189,10 @@ def specialise(tree: ast.Module, rel: str, used_kws: Set[Tuple[str, str]], max_p
             p = x.arg
             if p in old or p in ("self", "cls") or p not in defaults or _literal(defaults[p], consts) is None or p in stored:
                 continue
-            if any((nm, p) in used_kws or (nm, "**") in used_kws for nm in names):
+            if spec_ok is not None:
+                if not all((nm, p) in spec_ok for nm in names):
+                    continue
+            elif any((nm, p) in used_kws or (nm, "**") in used_kws for nm in names):
                 continue
             if x in pos:
                 idx = pos.index(x) - (1 if pos and pos[0].arg in ("self", "cls") else 0)
